@@ -558,6 +558,12 @@ func run(e *core.Env) {
 			}
 			k := tp.Intn(len(library))
 			what := "replayed-later"
+			if now, _ := V.State.VerifPeekSession(libSrc[k]); libSess[k] != nil && now != libSess[k] {
+				// also here the source's session may have been dropped meanwhile (several short
+				// clock jumps add up to more than a minute): the recorded finding, not a new one
+				what = "replayed-after-session-expiry"
+				e.Probe("replay_after_session_expiry")
+			}
 			if libKinds[k] == "announce" && libSrc[k] == X.IP && tp.Chance(1, 2) {
 				// The state the announcement created is gone again - the link to X flapped, which
 				// takes X's routes out of V's table - and X has sent V a newer signed ping since.
